@@ -50,3 +50,11 @@ CLAIMED['C17'] = dict(
          'sample-reading method under contract, normal return implies that every range read succeeded, and no pool-task exception is dropped. With C02 this gives '
          '"raises or returns the true data". Footer/header reads only as far as their contracts exist.',
     note='AX-POOL, AX-GIL, AX-FILE/AX-BLOB weak form; value side is C02 (fault-free executions)')
+CLAIMED['C01'] = dict(
+    text='Proof of the producer side for the routes under contract (NumPy so far) + layout agreement: every array put on the compression queue = edge-replicated source on its box, '
+         'exact shape, and its cells land at spec_off in the file, all cube shapes, every valid setting; reader side = C02 (read_volume under contract); pipeline order = C16; sizes = C03. '
+         'SEG-Y/reduced-I/O/CLI/VDS/ZGY routes: only as far as their producer contracts are present (see evidence).',
+    note='AX-ZFP-ENC, AX-NP-INDEX, sequential loop order; composition across contracts by modularity, not re-proved end to end')
+CLAIMED['C20'] = dict(
+    text='Proof for the routes under contract (NumPy so far): the byte strings fed to the hash object are exactly the real inlines of the source, each once, in trace order, for all shapes and settings.',
+    note='AX-SHA1 (incl. collision resistance); write_hash patch / accessor / re-blocker copy not yet under contract')
